@@ -1,4 +1,5 @@
 import LabtechModel.Props.C10
+import LabtechModel.Proofs.InvRef
 /-!
 # C01 — run_tasks returns exactly each requested task's own computed result
 
@@ -13,8 +14,16 @@ Proved here:
   no backend, limit or schedule appears in it;
 * `reference_example`: on a concrete diamond DAG every backend and two different schedules return
   the value of the plain sequential evaluation.
-The schedule-independence theorem for all DAGs (`run … = refEval`) needs the dependency invariant,
-acyclicity and fairness; it is the goal stated in DESIGN.md section 7, C01.
+Whole runs (from the master invariant and the value invariant `RefInv` of `Proofs/InvRef.lean`):
+* `returns_reference_values`: for every problem in which no task raises or dies and `run()` is total
+  (`RefHyp`: `Acyclic`, `InstOK`, a choice `obj` of one object per tid, `NoFail`, `BehaveTotal`), every
+  configuration with positive limits, every *sound* cache pre-state (`StoreSound`: entries hold the
+  reference value of their task), enough planning fuel and every fair schedule that is long enough,
+  `run_tasks` returns exactly the requested tasks, de-duplicated in request order, each with
+  `refEval` — the value of the plain sequential dependency-first evaluation. Backend, worker count,
+  per-type limits, the schedule and the cache pre-state do not occur in the right-hand side;
+* `every_yield_is_reference_value`: on the way, every task that is yielded at all is yielded with
+  `ok (refEval t)` (also non-requested intermediate tasks, also loaded-from-cache ones).
 -/
 namespace Lt.Props.C01
 open Lt
@@ -142,5 +151,67 @@ theorem reference_example :
       ∀ sched ∈ [[all, all, all, all, all], [lastOnly, firstOnly, lastOnly, all, firstOnly, all, all, all]],
         (run { backend := be, maxWorkers := mw, contOnFail := true, bust := false } exP [] 5 sched).status
           = .returned [(3, 6000), (1, 1000)] := by decide
+
+/-! ## whole runs -/
+
+/-- schedule-, backend-, limit- and cache-independence: the returned dict is the reference evaluation
+    of the requested tasks -/
+theorem returns_reference_values (cfg : Config) (p : Problem) (store : Store) (fuel : Nat) (sched : List Choice)
+    (obj : Tid → Iid) (H : RefHyp p obj) (hS : StoreSound p obj store) (hF : FuelOK p fuel)
+    (hL : LimitsPos cfg p) (hfair : Fair sched)
+    (hlen : (plan cfg p store fuel).pending.length + 1 ≤ sched.length) :
+    (run cfg p store fuel sched).status =
+      .returned ((dedup (reqTids p)).filterMap (fun t => (refEval p obj t).map (fun v => (t, v)))) ∧
+    ∀ t ∈ reqTids p, (refEval p obj t).isSome :=
+  run_returns_ref cfg p store fuel sched obj H hS hF hL hfair hlen
+
+/-- every outcome handed to the coordinator, at any point of any run, is the task's reference value -/
+theorem every_yield_is_reference_value (cfg : Config) (p : Problem) (store : Store) (fuel : Nat)
+    (sched : List Choice) (obj : Tid → Iid) (H : RefHyp p obj) (hS : StoreSound p obj store)
+    (t : Tid) (o : Outcome) (h : Ev.yield t o ∈ (run cfg p store fuel sched).trace) :
+    ∃ v, o = .ok v ∧ refEval p obj t = some v := by
+  rw [run_trace] at h
+  exact (runLoop_ref H sched _ (initRS_reach cfg p store fuel) (initRS_ref cfg p obj store fuel hS)).yOk t o h
+
+/-- what `refEval` is: `run()` of the task applied to the reference values of the task objects in
+    its parameters -/
+theorem refEval_spec (p : Problem) (obj : Tid → Iid) (H : RefHyp p obj) (i : Iid) :
+    refEval p obj (p.tidOf i) =
+      p.behave (p.tidOf i) (((p.children (obj (p.tidOf i))).map p.tidOf).map (refEval p obj)) :=
+  refEval_unfold p obj H.acyc H.objOK i
+
+/-! non-vacuity: the hypotheses hold for the diamond with a duplicated object, for every backend,
+    with a cold and with a warm (sound) cache, and the conclusion is the concrete dict -/
+theorem invExP_refHyp : RefHyp invExP id where
+  acyc := invExP_acyclic
+  inst := by
+    intro i j h
+    simp only [invExP] at h ⊢
+    by_cases h4 : i = 4 <;> by_cases h4' : j = 4 <;> simp_all <;> grind
+  objOK := by
+    intro i
+    simp only [invExP, id]
+    split <;> simp_all
+  noFail := fun _ => ⟨rfl, rfl⟩
+  total := by intro t vs _; simp [invExP]
+
+theorem invExP_warm_sound : StoreSound invExP id [(1, 1000)] := by
+  intro t v h
+  simp only [lookup] at h
+  split at h
+  · next h1 => subst h1; simp only [Option.some.injEq] at h; subst h; decide
+  · cases h
+
+example : ∀ be ∈ [Backend.serial, Backend.fork, Backend.spawn], ∀ st ∈ [[], [(1, 1000)]],
+    (run { invExCfg with backend := be } invExP st 4 (List.replicate 5 chooseFirst)).status
+      = .returned [(3, 6000), (1, 1000)] ∧
+    (dedup (reqTids invExP)).filterMap (fun t => (refEval invExP id t).map (fun v => (t, v)))
+      = [(3, 6000), (1, 1000)] := by decide
+
+example (be : Backend) :
+    (run { invExCfg with backend := be } invExP [(1, 1000)] 4 (List.replicate 5 chooseFirst)).status =
+      .returned ((dedup (reqTids invExP)).filterMap (fun t => (refEval invExP id t).map (fun v => (t, v)))) :=
+  (returns_reference_values _ invExP [(1, 1000)] 4 _ id invExP_refHyp invExP_warm_sound invExP_fuel
+    (invEx_limits be 2 (by decide)) (fair_replicate 5 chooseFirst rfl) (by cases be <;> decide)).1
 
 end Lt.Props.C01
